@@ -23,7 +23,7 @@ pub const INFO: PropInfo = PropInfo {
         "a malformed request in the middle is smaller than the 1 KiB read buffer, so that one read consumes it",
         "request heads stay below 1 KiB",
     ],
-    expected_probes: &["c05.close_honoured", "c05.request_after_close_unanswered", "c05.malformed_in_middle", "c05.ctx_set_then_later_request", "c05.param_then_no_param", "c05.body_over_buffer", "c05.chaos_connection_alongside", "c05.short_reads_on_persistent", "c05.request_sent_before_previous_response", "c05.connection_with_64_or_more_requests", "c05.connection_with_256_or_more_requests"],
+    expected_probes: &["c05.close_honoured", "c05.request_after_close_unanswered", "c05.malformed_in_middle", "c05.ctx_set_then_later_request", "c05.param_then_no_param", "c05.body_over_buffer", "c05.chaos_connection_alongside", "c05.short_reads_on_persistent", "c05.request_sent_before_previous_response", "c05.connection_with_64_or_more_requests", "c05.connection_with_256_or_more_requests", "c05.request_right_behind_close_unanswered"],
 };
 
 #[derive(Clone, Debug, Serialize, Deserialize)]
@@ -40,6 +40,9 @@ pub struct ConnPlan {
     /// request; the server may well find both in one read)
     #[serde(default)]
     pub nowait: Vec<bool>,
+    /// the request that follows a `Connection: close` request is sent right behind it (same instant), not after its response
+    #[serde(default)]
+    pub eager_after_close: bool,
 }
 /// a misbehaving connection running next to the observed ones (fault isolation between sessions)
 #[derive(Clone, Debug, Serialize, Deserialize)]
@@ -69,6 +72,7 @@ struct ConnObs {
     /// after the last exchange: did the server close, and what else arrived
     closed: Option<(bool, Vec<u8>)>,
     sent_after_close: bool,
+    sent_with_close: bool,
 }
 
 pub fn generate(_cfg: &RunCfg, _out: &mut Outcome) -> Scenario {
@@ -86,7 +90,7 @@ pub fn generate(_cfg: &RunCfg, _out: &mut Outcome) -> Scenario {
         let think_ms = reqs.iter().map(|_| if long { 0 } else { t::pick(&[0u64, 0, 1, 30, 2000]) }).collect();
         let eager = t::chance(1, 3);
         let nowait = reqs.iter().map(|r| eager && r.malformed.is_none() && !r.wants_close() && t::chance(1, 2)).collect();
-        conns.push(ConnPlan { reqs, think_ms, send_after_close: t::chance(1, 2), short_reads: t::chance(1, 4), nowait });
+        conns.push(ConnPlan { reqs, think_ms, send_after_close: t::chance(1, 2), short_reads: t::chance(1, 4), nowait, eager_after_close: t::chance(1, 2) });
     }
     let chaos = (0..t::weighted(&[3, 2, 1])).map(|_| ChaosPlan { start_ms: t::pick(&[0u64, 0, 1, 30, 2000]), kind: t::draw(6) as u8, err: t::draw(4) as u8, delay_ms: t::pick(&[0u64, 1, 50]) }).collect();
     Scenario { conns, chaos }
@@ -166,6 +170,13 @@ fn execute(sc: &Scenario, out: &mut Outcome) {
                     }
                     c.send(&it.bytes(), 0);
                     sent = k + 1;
+                    if it.wants_close() && p.send_after_close && p.eager_after_close && k + 1 < p.reqs.len() {
+                        // the successor is already on the wire when the closing request is handled: it must not be served
+                        c.send(&p.reqs[k + 1].bytes(), 0);
+                        let mut ob = o.borrow_mut();
+                        ob.sent_after_close = true;
+                        ob.sent_with_close = true;
+                    }
                 }
                 while sent < p.reqs.len() && p.nowait.get(sent - 1).copied().unwrap_or(false) {
                     c.send(&p.reqs[sent].bytes(), 0);
@@ -184,7 +195,7 @@ fn execute(sc: &Scenario, out: &mut Outcome) {
                     return;
                 }
                 if it.wants_close() {
-                    if p.send_after_close && k + 1 < p.reqs.len() {
+                    if p.send_after_close && !p.eager_after_close && k + 1 < p.reqs.len() {
                         c.send(&p.reqs[k + 1].bytes(), 0);
                         o.borrow_mut().sent_after_close = true;
                     }
@@ -386,6 +397,9 @@ fn execute(sc: &Scenario, out: &mut Outcome) {
                         out.probe("c05.close_honoured");
                         if ob.sent_after_close {
                             out.probe("c05.request_after_close_unanswered");
+                        }
+                        if ob.sent_with_close {
+                            out.probe("c05.request_right_behind_close_unanswered");
                         }
                     }
                     Some((false, extra)) => {
